@@ -149,3 +149,28 @@ def unit_scaling(j):
             o_ = core.prove_zero('%s/%s' % (base, nm), v.subs(sub, simultaneous=True) - f * v, hy, goal_text='%s(scaled inputs) == %s * %s(inputs)' % (nm, f, nm), extra_syms={lM, lL, lT}, positive=[ALPHA])
             o_.pop('cex_raw', None); O.append(o_)
     return res
+
+
+def unit_similarity(j):
+    """C10: the shock state of Sedov._run follows the documented power laws in t: r2 ~ t^(2/(j+2-omega)), u2 ~ t^(2/(j+2-omega)-1), rho2 ~ t^(-2 omega/(j+2-omega)), p2 ~ rho2 u2^2;
+    the interior is a function of lambda = r/r2 alone by construction (sedov_funcs_standard has no other argument)."""
+    res = {'obligations': [], 'functions': [{'ref': SRC + '::Sedov._run', 'sha256_16': R.source_hash(R.func_ref(SRC + '::Sedov._run'))}], 'engine_errors': []}; O = res['obligations']
+    try: paths = c11.ctor_paths(j, {})
+    except Unsupported as u_:
+        O.append(core.Obl('C10/sedov/geometry=%d/extraction' % j, 'open', 'extraction', 0.0, detail=str(u_)[:300])); return res
+    cnt = {}; d = 2 / (j + 2 - om)
+    for p in paths:
+        if p.outcome != 'return': continue
+        o = p.value; A = o.attrs; typ, sing = A.get('solution_type'), A.get('special_singularity')
+        if sing != 'none': continue
+        cnt[typ] = cnt.get(typ, 0) + 1
+        base = 'C10/sedov/geometry=%d/%s%s' % (j, typ, '' if cnt[typ] == 1 else '~path%d' % cnt[typ]); hy = [gam > 1, om < j] + list(p.pc)
+        ALPHA = sp.Symbol('alpha_norm', positive=True); A['alpha'] = ALPHA
+        try: c11.shock_prefix(o)
+        except Unsupported as u_:
+            O.append(core.Obl(base + '/extraction', 'open', 'extraction', 0.0, detail=str(u_)[:300])); continue
+        for nm, ex in (('r2', d), ('us', d - 1), ('u2', d - 1), ('rho2', -om * d), ('p2', -om * d + 2 * (d - 1))):
+            v = sp.sympify(A[nm])
+            o_ = core.prove_zero('%s/exponent:%s' % (base, nm), t * sp.diff(v, t) - ex * v, hy, goal_text='d log %s / d log t == %s' % (nm, ex), positive=[ALPHA])
+            o_.pop('cex_raw', None); O.append(o_)
+    return res
